@@ -96,8 +96,9 @@ pub fn check(mut ctx: Ctx, replay: Option<J>) -> ! {
     }
     let mut k = 0usize;
     for e in emin..=emax {
-      let near = e.abs() <= 60 || e <= emin + 40 || e >= emax - 40;
-      if near || !quick {
+      // (a number with exponent e prints as a text of about |e| characters: every combination only near 0 and at the edges)
+      let near = if quick { e.abs() <= 60 || e <= emin + 40 || e >= emax - 40 } else { e.abs() <= 400 || e <= emin + 150 || e >= emax - 150 };
+      if near {
         // every coefficient, sign and scale
         for coef in &coefs {
           for neg in [false, true] {
@@ -110,15 +111,17 @@ pub fn check(mut ctx: Ctx, replay: Option<J>) -> ! {
         }
       } else {
         // every exponent at least once: rotate coefficient, sign, scale, arithmetic
-        let coef = &coefs[k % coefs.len()];
-        push(k % 2 == 1, coef, e, (k % 3) as i64, (k % 5 == 0) as u8 * (1 + (k % 2) as u8), &mut recs, &mut stim);
-        k += 1;
+        for _ in 0..(if quick { 1 } else { 4 }) {
+          let coef = &coefs[k % coefs.len()];
+          push(k % 2 == 1, coef, e, (k % 3) as i64, (k % 5 == 0) as u8 * (1 + (k % 2) as u8), &mut recs, &mut stim);
+          k += 1;
+        }
       }
     }
     ctx.cov("exponents_covered", json!(emax - emin + 1));
     // seeded random numbers
     let mut rng = Rng::new(ctx.seed);
-    for _ in 0..(if quick { 3000 } else { 60000 }) {
+    for _ in 0..(if quick { 3000 } else { 20000 }) {
       let len = 1 + rng.below(34) as usize;
       let mut coef: Vec<u8> = (0..len).map(|_| rng.below(10) as u8).collect();
       coef[0] = 1 + rng.below(9) as u8;
